@@ -181,7 +181,7 @@ Ufunc(f, a, b) ==
             ELSE IF OpWeak(b) THEN ResultTypeWeak(OpDT(a), b[2])
             ELSE ResultType(OpDT(a), OpDT(b))
       V(o, r, c) == IF OpWeak(o) THEN PyVal(o[2], rt, o[3]) ELSE Cast(OpDT(o), rt, OpVal(o, r, c))
-      badcol(o) == Tag(o) \in {"col", "collist"} /\ Len(o[3]) # Len(lens)
+      badcol(o) == (Tag(o) \in {"col", "collist"} /\ Len(o[3]) # Len(lens)) \/ (Tag(o) = "collist" /\ o[3] = <<>>)
       badpy(o) == OpWeak(o) /\ ( (o[2] = "pyfloat" /\ ~IsFlt(rt)) \/ (o[2] # "pyfloat" /\ ~IsFlt(rt) /\ ~Fits(rt, o[3])) )
   IN IF Tag(a) # "ra" /\ Tag(b) # "ra" THEN UNSPEC
      ELSE IF unary THEN
@@ -196,8 +196,9 @@ Ufunc(f, a, b) ==
 
 (***************************************************************************)
 (* C05  row reductions                                                     *)
-(* name: "sum" "prod" "any" "all" "max" "min" "mean" "argmax" "argmin",   *)
-(*       or <<"r", f>> for np.<f>.reduce; axis: -1 | 1 | NONE             *)
+(* name: <<"n", "sum" | "prod" | "any" | "all" | "max" | "min" | "mean"   *)
+(*       | "argmax" | "argmin">>, or <<"r", f>> for np.<f>.reduce;        *)
+(* axis: -1 | 1 | NONE; keepdims: 0 | 1                                   *)
 (***************************************************************************)
 RedUfunc(name) == CASE name = "sum" -> "add" [] name = "prod" -> "multiply" [] name = "any" -> "logical_or"
                     [] name = "all" -> "logical_and" [] name = "max" -> "maximum" [] name = "min" -> "minimum" [] OTHER -> "?"
@@ -206,13 +207,14 @@ ArgExt(dt, q, wantmax) ==
   CHOOSE i \in DOMAIN q : /\ \A j \in DOMAIN q : IF wantmax THEN ~Less(dt, q[i], q[j]) ELSE ~Less(dt, q[j], q[i])
                           /\ \A j \in 1..i - 1 : IF wantmax THEN Less(dt, q[j], q[i]) ELSE Less(dt, q[i], q[j])
 HasNaN(dt, q) == IsFlt(dt) /\ \E i \in DOMAIN q : IsNaN(q[i])
-Reduce(name, arr, axis, keepdims) ==
+Reduce(nm, arr, axis, keepdims) ==
   LET dt == DT(arr)  rows == Rows(arr)
-      isr == Tag(name) = "r"                                  \* np.<f>.reduce
-      f == IF isr THEN name[2] ELSE RedUfunc(name)
+      isr == nm[1] = "r"                                      \* <<"r", f>>: np.<f>.reduce;  <<"n", name>>: named reduction
+      name == nm[2]
+      f == IF isr THEN nm[2] ELSE RedUfunc(name)
       simple == isr \/ name \in {"sum", "prod", "any", "all", "max", "min"}
       mask == [r \in DOMAIN rows |-> B(rows[r] # <<>> \/ (simple /\ HasIdentity(f)))]
-      shape(dto, q) == IF keepdims THEN <<"pcol", dto, q, mask>> ELSE <<"partial", dto, q, mask>>
+      shape(dto, q) == IF keepdims = 1 THEN <<"pcol", dto, q, mask>> ELSE <<"partial", dto, q, mask>>
   IN IF simple /\ f \notin Binary THEN UNSPEC
      ELSE IF simple /\ NoLoop(f, ReduceType(f, dt)) THEN (IF FlatOf(arr) = <<>> THEN UNSPEC ELSE REFUSED)
      ELSE IF simple /\ ~IdentityInRegime(f, dt) THEN UNSPEC
@@ -243,7 +245,7 @@ UniqueRow(dt, q) == LET s == SortRow(dt, q) IN SelectSeq([i \in DOMAIN s |-> <<s
 UniqueVals(dt, q) == LET u == UniqueRow(dt, q) IN [i \in DOMAIN u |-> u[i][1]]
 UniqueCounts(dt, q) == LET u == UniqueVals(dt, q) IN [i \in DOMAIN u |-> Cardinality({j \in DOMAIN q : q[j] = u[i]})]
 \* np.diff of one row: bool uses not_equal, everything else subtract in the row's dtype
-Diff1(dt, q) == [i \in 1..Len(q) - 1 |-> IF dt = "b1" THEN B(q[i + 1] # q[i]) ELSE F2("subtract", dt, q[i + 1], q[i])]
+Diff1(dt, q) == [i \in 1..Mx(Len(q) - 1, 0) |-> IF dt = "b1" THEN B(q[i + 1] # q[i]) ELSE F2("subtract", dt, q[i + 1], q[i])]
 RECURSIVE DiffN(_, _, _)
 DiffN(dt, q, n) == IF n = 0 THEN q ELSE DiffN(dt, Diff1(dt, q), n - 1)
 \* ufunc.accumulate of one row.  add promotes like a reduction; subtract / xor stay in the row's dtype
@@ -317,7 +319,7 @@ RaggedSlice(input, starts, ends) ==
       S(r) == IF Tag(starts) = "none" THEN 0 ELSE starts[2][r]
       E(r) == IF Tag(ends) = "none" THEN Len(base[r]) ELSE ends[2][r]
       inrow(r) == S(r) \in 0..Len(base[r]) /\ E(r) \in -Len(base[r])..Len(base[r])
-  IN IF Tag(input) = "1d" /\ Tag(starts) = "none" /\ Tag(ends) = "none" THEN UNSPEC
+  IN IF Tag(input) = "1d" /\ (Tag(starts) = "none" \/ Tag(ends) = "none") THEN UNSPEC      \* a 1-D input has no rows of its own
      ELSE IF ~okvec(starts) \/ ~okvec(ends) THEN UNSPEC
      ELSE IF \E r \in 1..nr : ~inrow(r) THEN UNSPEC
      ELSE <<"ragged", dt, [r \in 1..nr |-> SliceSeq(base[r], S(r), E(r), NONE)]>>
@@ -338,14 +340,19 @@ Col(name, arr, j) ==
 (***************************************************************************)
 (* dispatcher                                                              *)
 (***************************************************************************)
+\* 32/64-bit unsigned results that went below zero wrapped to values outside the modelled integer range: no verdict
+RegimeGuard(out) ==
+  IF Tag(out) \in {"ragged", "array"} /\ Kind(out[2]) = "u" /\ Bits(out[2]) > 16
+     /\ \E r \in DOMAIN out[3] : \E c \in DOMAIN out[3][r] : out[3][r][c] < 0
+  THEN UNSPEC ELSE out
 Expect(c) ==
   LET op == c[1] IN
   CASE op = "readback" -> ExpReadBack(c[2], c[3])
     [] op = "getitem" -> GetItem(c[2], c[3], c[4])
     [] op = "setitem" -> SetItem(c[2], c[3], c[4], c[5])
-    [] op = "ufunc" -> Ufunc(c[2], c[3], c[4])
+    [] op = "ufunc" -> RegimeGuard(Ufunc(c[2], c[3], c[4]))
     [] op = "reduce" -> Reduce(c[2], c[3], c[4], c[5])
-    [] op = "scan" -> Scan(c[2], c[3], c[4])
+    [] op = "scan" -> RegimeGuard(Scan(c[2], c[3], c[4]))
     [] op = "concat" -> Concat(c[2], c[3])
     [] op = "like" -> Like(c[2], c[3], c[4])
     [] op = "pad" -> Pad(c[2], c[3], c[4])
